@@ -33,6 +33,10 @@ WRONG_MAIN = {
     "wml": "application/vnd.openxmlformats-officedocument.wordprocessingml.document.main+xml",
     "sml": "application/vnd.openxmlformats-officedocument.spreadsheetml.sheet.main+xml",
     "slide": "application/vnd.openxmlformats-officedocument.presentationml.slide+xml",
+    # the PresentationML relatives of a presentation (template, show): their part class is the presentation's, the
+    # library's api documents that only a presentation (or macro-enabled presentation) main part is opened
+    "potx": "application/vnd.openxmlformats-officedocument.presentationml.template.main+xml",
+    "ppsx": "application/vnd.openxmlformats-officedocument.presentationml.slideshow.main+xml",
 }
 PRESENTATION_MAIN_TYPES = (
     "application/vnd.openxmlformats-officedocument.presentationml.presentation.main+xml",
